@@ -90,12 +90,21 @@ def gen_case(rng, mixed):
                 "offsets": rng.choice([1, 2, 3]) if rng.random() < 0.35 else 0,
                 "end": rng.choice(["commit", "commit", "commit", "abort", "ctx_ok", "ctx_exc"]),
                 "linger": rng.choice([0, 0, 5]),
+                # None: the transaction is ended after every send() call has returned;
+                # a number: it is ended that many seconds after begin, whatever the send tasks are doing
+                "end_at": rng.choice([0.0, 0.02, 0.05, 0.1, 0.2, 0.4]) if rng.random() < 0.2 else None,
             })
         how = "finish"
         if i < n_inc - 1:
             how = rng.choice(["kill", "kill", "zombie", "finish"]) if mixed else rng.choice(["kill", "finish"])
-        incs.append({"txns": txns, "how": how, "kill_at": round(rng.uniform(0.02, 1.5), 3)})
+        incs.append({"txns": txns, "how": how, "kill_at": round(rng.uniform(0.02, 1.5), 3),
+                     # a small max_batch_size makes the second record of a partition wait for the drain of the first
+                     "batch_size": rng.choice([16384, 16384, 120])})
     faults = []
+    if rng.random() < 0.3:
+        # a slow metadata refresh: a batch re-enqueued after a retriable Produce error stays queued meanwhile
+        faults.append({"api": "Metadata", "nth": rng.randrange(1, 8), "kind": "delay",
+                       "seconds": rng.choice([0.2, 0.5, 1.0]), "count": rng.choice([1, 2])})
     for _ in range(rng.choice([0, 1, 2, 3, 5, 8])):
         api = rng.choice(APIS)
         kind = rng.choice(["error", "error", "drop_before", "drop_after", "lose_reply", "move", "move", "delay", "delay"])
@@ -212,6 +221,47 @@ def exact_families():
                 # transaction commits), whatever the number of partitions in the offsets map
                 c_["only_abortable"] = True
                 out.append(c_)
+    # family M: commit / abort while other tasks' send()/send_batch() calls are still blocked inside the
+    # producer (send_batch behind an undrained batch; a send() that found its batch full), the first
+    # AddPartitionsToTxn answered slowly, the partition leader slow
+    for modes, bsize in ((["s", "bi", "bi"], 16384), (["bi", "bi", "s"], 16384), (["s", "s", "s"], 120),
+                         (["s", "bi", "s"], 120)):
+        for end_at in (0.05, 0.15, 0.3, 0.45):
+            for end in ("commit", "abort"):
+                for pdelay in (0.0, 0.5):
+                    k += 1
+                    flt = [{"api": "AddPartitionsToTxn", "nth": 0, "kind": "delay", "seconds": 0.4}]
+                    if pdelay:
+                        flt.append({"api": "Produce", "nth": None, "count": None, "kind": "delay", "seconds": pdelay, "tp": 0})
+                    c_ = case(2, [{"sends": [0, 0, 0], "delays": [0.0, 0.01, 0.02], "modes": modes, "await": False,
+                                   "offsets": 0, "end": end, "linger": 0, "end_at": end_at},
+                                  {"sends": [0, 1], "delays": [0.0, 0.0], "modes": ["s", "s"], "await": True,
+                                   "offsets": 0, "end": "commit", "linger": 0}], flt, False, 1000 + k)
+                    c_["incs"][0]["batch_size"] = bsize
+                    out.append(c_)
+    # family N: a batch re-enqueued after a retriable Produce error (its sequence numbers are taken) is still
+    # queued - the metadata refresh is slow - when an authorization error for another partition arrives;
+    # abort; the next transaction must deliver to the first partition again
+    for code in (6, 7):
+        for mdelay in (0.5, 1.0):
+            for gap in (0.12, 0.2, 0.35, 0.6, 0.9):
+                for abrt in ({"api": "AddPartitionsToTxn", "nth": 1, "kind": "error", "code": 29},
+                             {"api": "AddOffsetsToTxn", "nth": 0, "kind": "error", "code": 30}):
+                    k += 1
+                    offs = 1 if abrt["api"] == "AddOffsetsToTxn" else 0
+                    sends, delays = ([0, 1], [0.0, gap]) if not offs else ([0], [0.0])
+                    c_ = case(2, [{"sends": sends, "delays": delays, "modes": ["s"] * len(sends), "await": False,
+                                   "offsets": offs, "end": "abort", "linger": 0,
+                                   "end_at": None, "offsets_at": gap if offs else None},
+                                  {"sends": [0, 1], "delays": [0.0, 0.0], "modes": ["s", "s"], "await": True,
+                                   "offsets": 0, "end": "commit", "linger": 0}],
+                              [{"api": "Produce", "nth": 0, "kind": "error", "code": code, "tp": 0},
+                               # from the first AddPartitionsToTxn on, metadata refreshes are slow
+                               {"api": "AddPartitionsToTxn", "nth": 0, "kind": "arm_delay", "target": "Metadata",
+                                "seconds": mdelay, "count": 3},
+                               dict(abrt)], True, 1000 + k)
+                    c_["expect"] = ["aborted", "committed"]
+                    out.append(c_)
     # family B
     for code in NONRETRIABLE_PRODUCE[:2]:
         for d in (0.3, 0.8):
@@ -242,6 +292,11 @@ def install_faults(env, cluster, case):
             cluster.faults.add(F("delay", api=f["api"], nth=f["nth"], seconds=f["seconds"], tp=tp, count=cnt))
         elif k in ("drop_before", "drop_after", "lose_reply"):
             cluster.faults.add(F(k, api=f["api"], nth=f["nth"]))
+        elif k == "arm_delay":
+            def arm(cl, rq, f=f):
+                cl.faults.add(F("delay", api=f["target"], nth=None, seconds=f["seconds"], count=f["count"]))
+            cluster.faults.add(F("call", api=f["api"], nth=f["nth"], fn=arm,
+                                 label=f"from now on {f['target']} replies are {f['seconds']} s late"))
         elif k == "group_lookup_denied":
             state = {"n": 0}
 
@@ -275,6 +330,9 @@ class Obs:
         self.payload_id = {}    # payload -> canonical record id (acceptance order)
         self.nrec = 0
         self.backpressure = 0   # send()/send_batch() calls that raised KafkaTimeoutError (record not accepted)
+        self.rejected = []      # payloads whose send()/send_batch() CALL raised: not accepted, must never be written
+        self.limbo = []         # payloads accepted while the application had no transaction open
+        self.unaccepted = []    # payloads appended by a leader although no send() call had returned a future for them
 
 
 async def run_incarnation(env, cluster, case, i, spec, obs, boot):
@@ -286,8 +344,11 @@ async def run_incarnation(env, cluster, case, i, spec, obs, boot):
         cluster._ev("api", op=op, i=i, **kw)
 
     p = env.aiokafka.AIOKafkaProducer(bootstrap_servers=boot, client_id=f"p{i}", transactional_id=TXID,
-                                      request_timeout_ms=TC.REQUEST_TIMEOUT_MS)
+                                      request_timeout_ms=TC.REQUEST_TIMEOUT_MS,
+                                      max_batch_size=int(spec.get("batch_size", 16384)))
     state = {"p": p, "started": False}
+    cur = {"rec": None}     # the transaction the application has open (records are booked where they are ACCEPTED)
+    running = []            # send tasks still running
     # observe the client side of the connections from outside: what is handed to a connection and
     # which acknowledgements have come back (AIOKafkaClient.send is the single choke point)
     orig_send = p.client.send
@@ -354,6 +415,8 @@ async def run_incarnation(env, cluster, case, i, spec, obs, boot):
                 break
             api("begin")
             obs.txns.append(rec)
+            cur["rec"] = rec
+            rec["w0"] = len(cluster.trace)
             futs = []
             failed = None
 
@@ -376,14 +439,19 @@ async def run_incarnation(env, cluster, case, i, spec, obs, boot):
                     # request_timeout_ms (earlier batches of the partition still in flight to a slow leader);
                     # the record is NOT accepted, nothing is claimed about it, the application goes on
                     obs.backpressure += 1
+                    obs.rejected.append(payload)
                     return None
                 except (E.KafkaError, AssertionError) as ex:
+                    obs.rejected.append(payload)
                     return ex
                 rid = obs.nrec
                 obs.nrec += 1
                 obs.payload_id[payload] = rid
                 entry = [payload, "pending"]
-                rec["recs"].append(entry)
+                if cur["rec"] is not None:
+                    cur["rec"]["recs"].append(entry)
+                else:
+                    obs.limbo.append(payload)
                 api("accept", r=rid, p=part)
 
                 def cb(f, rid=rid, entry=entry):
@@ -397,11 +465,25 @@ async def run_incarnation(env, cluster, case, i, spec, obs, boot):
                 futs.append(fut)
                 return None
 
-            res = await asyncio.gather(*(one(j, part) for j, part in enumerate(txn["sends"])))
+            send_tasks = [asyncio.ensure_future(one(j, part)) for j, part in enumerate(txn["sends"])]
+            running[:] = send_tasks
+            if txn.get("end_at") is None:
+                res = await asyncio.gather(*send_tasks)
+                late = []
+            else:
+                # the application ends the transaction at a fixed time, whatever its send tasks are doing:
+                # calls still blocked inside the producer (full batch, send_batch behind an undrained batch,
+                # not yet started) race with commit / abort
+                await asyncio.sleep(txn["end_at"])
+                res = [t_.result() for t_ in send_tasks if t_.done()]
+                late = [t_ for t_ in send_tasks if not t_.done()]
+                rec["late"] = len(late)
             for r in res:
                 if r is not None:
                     failed = r
             if txn["offsets"] and failed is None:
+                if txn.get("offsets_at"):
+                    await asyncio.sleep(txn["offsets_at"])
                 off = 100 + len(obs.txns) * 10 + t
                 rec["offset"] = off
                 omap = TC.offsets_map(TP, int(txn["offsets"]), off)
@@ -434,6 +516,7 @@ async def run_incarnation(env, cluster, case, i, spec, obs, boot):
                         await ending(t, p.commit_transaction())
                     rec["outcome"] = "committed"
                     api("commit_ok")
+                    cur["rec"] = None
                 else:
                     rec["asked"] = "abort"
                     api("abort_call")
@@ -447,6 +530,7 @@ async def run_incarnation(env, cluster, case, i, spec, obs, boot):
                         await ending(t, p.abort_transaction())
                     rec["outcome"] = "aborted"
                     api("abort_ok")
+                    cur["rec"] = None
             except (E.KafkaError, AssertionError) as ex:
                 cls = env.classify(ex)
                 obs.errors.append((i, rec["asked"], cls))
@@ -458,6 +542,7 @@ async def run_incarnation(env, cluster, case, i, spec, obs, boot):
                         await p.abort_transaction()
                         rec["outcome"] = "aborted"
                         api("abort_ok")
+                        cur["rec"] = None
                     except (E.KafkaError, AssertionError) as ex2:
                         obs.errors.append((i, "abort", env.classify(ex2)))
                         rec["outcome"] = "failed"
@@ -465,7 +550,19 @@ async def run_incarnation(env, cluster, case, i, spec, obs, boot):
                 else:
                     rec["outcome"] = "failed"
                     break
+            rec["w1"] = len(cluster.trace)
+            cur["rec"] = None
+            if late:
+                # the calls that were still inside the producer when the transaction was ended: they raise
+                # (record not accepted) - what they must never do is leave their record behind
+                await asyncio.gather(*late)
+        for t_ in running:
+            if not t_.done():
+                t_.cancel()
     except asyncio.CancelledError:
+        for t_ in running:
+            if not t_.done():
+                t_.cancel()
         for r in obs.txns:
             if r["inc"] == i and r["outcome"] == "open":
                 r["outcome"] = "killed-in-" + (r["asked"] or "txn")
@@ -563,7 +660,10 @@ def translate(trace, obs):
                     for payload in pp["records"]:
                         rid = obs.payload_id.get(payload)
                         if rid is None:
-                            raise HarnessError(f"record {payload!r} appended before send() returned")
+                            # a record that no accepted send() produced (its call raised, or has not returned):
+                            # an id outside the acceptance order - the acceptor refuses the append
+                            rid = 900000 + len(obs.unaccepted)
+                            obs.unaccepted.append(payload)
                         evs.append(("A" if pp["is_txn"] else "N") + f"{i}.{tp[1]}.{rid}")
         elif ev == "api":
             i, op = e["i"], e["op"]
@@ -607,6 +707,16 @@ def canon_reqs_ids(env, cluster, case, ids):
     return out
 
 
+def clean_case(case):
+    """one incarnation; only retriable / authorization faults (nothing that legitimately poisons later transactions)"""
+    if len(case["incs"]) != 1:
+        return False
+    for f in case["faults"]:
+        if f["kind"] == "error" and f["api"] == "Produce" and f.get("code") in NONRETRIABLE_PRODUCE:
+            return False
+    return True
+
+
 def run_trace_case(env, case):
     """-> dict(events, sim (canonical final state of the simulator), holds (None | (sig, text)), hang, stats)"""
     sim = env.sim
@@ -622,7 +732,9 @@ def run_trace_case(env, case):
     except sim.SimTimeout as ex:
         hang = str(ex)[:300]
     evs = translate(cluster.trace, obs)
-    ids = obs.payload_id
+    ids = dict(obs.payload_id)
+    for n_, pl_ in enumerate(obs.unaccepted):
+        ids[pl_] = 900000 + n_
     parts = []
     vis_all = set()
     for part in (0, 1, 2):
@@ -653,6 +765,18 @@ def run_trace_case(env, case):
             for payload, _o in r["recs"]:
                 if payload in vis_all and why is None:
                     why = ("c07:aborted-visible", f"record {payload} of an aborted / fenced transaction ({r['outcome']}) is visible to a read-committed reader")
+    # a send()/send_batch() whose CALL raised did not accept the record: it must never be written
+    written = set()
+    for part in (0, 1, 2):
+        written |= set(TC.rc_view(cluster, part)[2])
+    for payload in obs.rejected:
+        if payload in written and why is None:
+            why = ("c07:refused-send-written",
+                   f"record {payload}: the send()/send_batch() call raised (record not accepted) but the record was written")
+    for payload in obs.limbo:
+        if why is None:
+            why = ("c07:send-accepted-outside-transaction",
+                   f"record {payload} was accepted by send()/send_batch() while the application had no transaction open")
     # offsets, partition by partition of the maps that were sent (1..3 partitions over two topics)
     cm = cluster.committed(GROUP)
     indeterminate = any(r["outcome"] in ("failed", "fatal", "killed-in-commit", "killed-in-abort") and r["offset_ok"]
@@ -693,6 +817,30 @@ def run_trace_case(env, case):
             live = ("c07:abortable-error-became-fatal",
                     f"an authorization error alone (offsets map of {case['incs'][0]['txns'][0]['offsets']} partitions) "
                     f"did not stay abortable: outcomes {outs}, errors {obs.errors[:3]}")
+    elif case.get("expect"):
+        # exact schedule with a stated outcome: abort recovers - the next transaction delivers and commits
+        outs = [r["outcome"] for r in obs.txns]
+        lastrecs = [o for _p, o in obs.txns[-1]["recs"]] if obs.txns else []
+        if outs != case["expect"] or any(o != "ok" for o in lastrecs) or not lastrecs:
+            live = ("c07:abort-did-not-recover",
+                    f"after an abortable error and abort_transaction() the next transaction must deliver and commit: "
+                    f"outcomes {outs} (expected {case['expect']}), sends of the last transaction {lastrecs}, errors {obs.errors[:3]}")
+    if live is None and why is None and clean_case(case):
+        # "abort / commit return the producer to a state in which a new transaction succeeds": in a run of one
+        # incarnation with retriable and authorization faults only, a transaction during which no fault fired
+        # (slow replies aside) must end the way it was asked to, with every send acknowledged
+        fired = [n_ for n_, e in enumerate(cluster.trace) if e["ev"] == "fault" and e.get("kind") != "delay"]
+        for r in obs.txns:
+            if "w1" not in r or r.get("late"):
+                continue
+            if any(r["w0"] <= n_ <= r["w1"] for n_ in fired):
+                continue
+            bad = [(p_, o) for p_, o in r["recs"] if o != "ok"]
+            if r["outcome"] not in ("committed", "aborted") or r["outcome"] != ("committed" if r["asked"] == "commit" else "aborted") or bad:
+                live = ("c07:clean-transaction-failed",
+                        f"transaction #{r['t']} ran without any fault but ended {r['outcome']} (asked {r['asked']}), "
+                        f"failed sends {bad[:3]} - an earlier error was not recovered from")
+                break
     stats = {"events": len(evs), "txns": len(obs.txns),
              "outcomes": [r["outcome"] for r in obs.txns],
              "faults_fired": sum(1 for e in cluster.trace if e["ev"] == "fault"),
@@ -752,7 +900,9 @@ def gen_api_case(rng):
 
 
 def slug(msg):
-    return "c07:" + "-".join(msg.replace("client:_", "").replace("_", " ").split()[:8]).lower()
+    import re
+    words = re.sub(r"[^a-z0-9 ]", "", msg.replace("client:_", "").replace("_", " ").lower()).split()
+    return "c07:" + "-".join(words[:8])
 
 
 def run(ctx):
@@ -946,7 +1096,13 @@ def run(ctx):
         "being ended / inside the transaction, send_batch() inside it (the transactional flag of every appended batch "
         "is an acceptor event); send_offsets maps have 1..3 partitions over two topics, abortable errors at "
         "TxnOffsetCommit / AddOffsetsToTxn / the group-coordinator lookup (+ 72 exact schedules for both); the "
-        "sequential programs have the letters k (create_batch) and t0/t1 (send_batch); "
+        "sequential programs have the letters k (create_batch) and t0/t1 (send_batch); 20 % of the transactions are "
+        "ended at a fixed time while send()/send_batch() calls may still be blocked inside the producer (small "
+        "max_batch_size, send_batch behind an undrained batch): a call that raised must never have its record written, "
+        "an appended record that no accepted send produced is refused by the acceptor; slow metadata refreshes; exact "
+        "schedules for both (commit/abort racing blocked calls; a re-enqueued batch queued when an authorization error "
+        "arrives, then abort, then a new transaction must deliver); in single-incarnation runs without poisoning faults "
+        "every transaction during which no fault fired must end as asked with all sends acknowledged; "
         "non-trivial = >= 1 transaction and >= 10 events. "
         "A: seeded sequential programs of 3..12 calls incl. kill-and-restart with at most one fault, compared with the "
         "API automaton; non-trivial = sends a transactional request. distinct by case text")
